@@ -103,6 +103,7 @@ def reset_globals():
     sym.reset_compress()
     sym.DEPTH[0] = 0
     del sym.SCOPE[:]
+    del sym.EXTRA[:]
 
 
 class PathRun:
